@@ -65,6 +65,18 @@ pub struct Opts {
     pub http_arm: bool,
 }
 
+/// The SDK's `HttpClient` reports a refusal as `HttpResponseError(status, body)`; the body carries the same
+/// numeric error id the binary protocol answers with. Mapped back so that both routes are judged alike.
+pub fn normalize_http<T>(result: Result<T, IggyError>) -> Result<T, IggyError> {
+    match result {
+        Err(IggyError::HttpResponseError(_, body)) | Err(IggyError::ResourceNotFound(body)) if body.contains("\"id\"") => {
+            let id = serde_json::from_str::<serde_json::Value>(&body).ok().and_then(|v| v["id"].as_u64()).unwrap_or(0) as u32;
+            Err(if id == 0 { IggyError::Error } else { IggyError::from_code(id) })
+        }
+        other => other,
+    }
+}
+
 /// `routed!(h, c, method(args))`: the call on connection `c`'s client, or - for the administrator in runs with
 /// the HTTP arm, by a seeded coin - the same call on the SDK's `HttpClient` against the in-process HTTP API.
 #[macro_export]
@@ -73,7 +85,7 @@ macro_rules! routed {
         if $h.route_http($c) {
             let result = $h.http0.as_ref().unwrap().$method($($arg),*).await;
             $h.stats.probe("request_via_http");
-            result
+            $crate::harness::normalize_http(result)
         } else {
             $h.clients[$c].as_ref().unwrap().$method($($arg),*).await
         }
@@ -376,7 +388,11 @@ impl Harness {
 
     /// Does this call of connection `c` go over HTTP? (the administrator only, by a coin of its own stream)
     pub fn route_http(&mut self, c: usize) -> bool {
-        c == 0 && self.http0.is_some() && self.http_rng.chance(0.5)
+        let via_http = c == 0 && self.http0.is_some() && self.http_rng.chance(0.5);
+        if via_http && self.verbose {
+            eprintln!("[op {}] -> over HTTP", self.op_index);
+        }
+        via_http
     }
 
     fn client(&self, c: usize) -> Option<&TcpClient> {
@@ -588,10 +604,13 @@ impl Harness {
         let mut messages: Vec<Message> = msgs.iter().map(|m| m.to_message()).collect();
         let lo = self.sim.now_micros();
         let seq0 = self.sim.steps();
-        let client = self.client(c).unwrap();
-        let result = client
-            .send_messages(&stream.to_identifier(), &topic.to_identifier(), &partitioning, &mut messages)
-            .await;
+        let result = if self.route_http(c) {
+            self.stats.probe("request_via_http");
+            self.stats.probe("send_via_http");
+            normalize_http(self.http0.as_ref().unwrap().send_messages(&stream.to_identifier(), &topic.to_identifier(), &partitioning, &mut messages).await)
+        } else {
+            self.client(c).unwrap().send_messages(&stream.to_identifier(), &topic.to_identifier(), &partitioning, &mut messages).await
+        };
         let seq1 = self.sim.steps();
         if self.opts.settle_each {
             self.sim.settle().await;
@@ -875,10 +894,13 @@ impl Harness {
             PollKind::Last => PollingStrategy::last(),
             PollKind::Next => PollingStrategy::next(),
         };
-        let client = self.client(c).unwrap();
-        let result = client
-            .poll_messages(&stream.to_identifier(), &topic.to_identifier(), partition, &consumer, &strategy, count, auto_commit)
-            .await;
+        let result = if matches!(who, Who::Consumer(_)) && self.route_http(c) {
+            self.stats.probe("request_via_http");
+            self.stats.probe("poll_via_http");
+            normalize_http(self.http0.as_ref().unwrap().poll_messages(&stream.to_identifier(), &topic.to_identifier(), partition, &consumer, &strategy, count, auto_commit).await)
+        } else {
+            self.client(c).unwrap().poll_messages(&stream.to_identifier(), &topic.to_identifier(), partition, &consumer, &strategy, count, auto_commit).await
+        };
         if !self.perm_gate("poll_messages", result.is_ok(), result.as_ref().err()) {
             return;
         }
@@ -1079,8 +1101,12 @@ impl Harness {
             Who::Consumer(r) => Consumer::new(r.to_identifier()),
             Who::Group(r) => Consumer::group(r.to_identifier()),
         };
-        let client = self.client(c).unwrap();
-        let result = client.store_consumer_offset(&consumer, &stream.to_identifier(), &topic.to_identifier(), partition, offset).await;
+        let result = if matches!(who, Who::Consumer(_)) && self.route_http(c) {
+            self.stats.probe("request_via_http");
+            normalize_http(self.http0.as_ref().unwrap().store_consumer_offset(&consumer, &stream.to_identifier(), &topic.to_identifier(), partition, offset).await)
+        } else {
+            self.client(c).unwrap().store_consumer_offset(&consumer, &stream.to_identifier(), &topic.to_identifier(), partition, offset).await
+        };
         if !self.perm_gate("store_consumer_offset", result.is_ok(), result.as_ref().err()) {
             return;
         }
@@ -1143,8 +1169,12 @@ impl Harness {
             Who::Consumer(r) => Consumer::new(r.to_identifier()),
             Who::Group(r) => Consumer::group(r.to_identifier()),
         };
-        let client = self.client(c).unwrap();
-        let result = client.get_consumer_offset(&consumer, &stream.to_identifier(), &topic.to_identifier(), partition).await;
+        let result = if matches!(who, Who::Consumer(_)) && self.route_http(c) {
+            self.stats.probe("request_via_http");
+            normalize_http(self.http0.as_ref().unwrap().get_consumer_offset(&consumer, &stream.to_identifier(), &topic.to_identifier(), partition).await)
+        } else {
+            self.client(c).unwrap().get_consumer_offset(&consumer, &stream.to_identifier(), &topic.to_identifier(), partition).await
+        };
         if !self.perm_gate_found("get_consumer_offset", matches!(result, Ok(Some(_))), result.is_ok(), result.as_ref().err()) {
             return;
         }
@@ -1200,8 +1230,12 @@ impl Harness {
             Who::Consumer(r) => Consumer::new(r.to_identifier()),
             Who::Group(r) => Consumer::group(r.to_identifier()),
         };
-        let client = self.client(c).unwrap();
-        let result = client.delete_consumer_offset(&consumer, &stream.to_identifier(), &topic.to_identifier(), partition).await;
+        let result = if matches!(who, Who::Consumer(_)) && self.route_http(c) {
+            self.stats.probe("request_via_http");
+            normalize_http(self.http0.as_ref().unwrap().delete_consumer_offset(&consumer, &stream.to_identifier(), &topic.to_identifier(), partition).await)
+        } else {
+            self.client(c).unwrap().delete_consumer_offset(&consumer, &stream.to_identifier(), &topic.to_identifier(), partition).await
+        };
         if !self.perm_gate("delete_consumer_offset", result.is_ok(), result.as_ref().err()) {
             return;
         }
